@@ -1,7 +1,181 @@
-use serde_json::Value;
+//! Adapters for typed event (de)serialization and `Raw` (C18).
 
-use crate::OpResult;
+use ruma_common::serde::Raw;
+use ruma_events::{
+    AnyEphemeralRoomEvent, AnyEphemeralRoomEventContent, AnyGlobalAccountDataEvent,
+    AnyGlobalAccountDataEventContent, AnyMessageLikeEvent, AnyMessageLikeEventContent,
+    AnyRoomAccountDataEvent, AnyRoomAccountDataEventContent, AnyStateEvent, AnyStateEventContent,
+    AnyStrippedStateEvent, AnySyncEphemeralRoomEvent, AnySyncMessageLikeEvent, AnySyncStateEvent,
+    AnySyncTimelineEvent, AnyTimelineEvent, AnyToDeviceEvent, AnyToDeviceEventContent,
+    EventContentFromType,
+};
+use serde_json::{json, value::RawValue, Value};
 
-pub fn dispatch(_op: &str, _cmd: &Value) -> Option<OpResult> {
-    None
+use crate::{s, OpResult};
+
+/// Leading identifiers of the Debug form, e.g. `State(RoomMember(Original(OriginalStateEvent`.
+fn variant_path<T: std::fmt::Debug>(v: &T) -> String {
+    let d = format!("{v:?}");
+    let end = d.find(" {").unwrap_or(d.len()).min(200);
+    let mut end = end;
+    while !d.is_char_boundary(end) {
+        end -= 1;
+    }
+    d[..end].to_owned()
+}
+
+macro_rules! de_case {
+    ($ty:ty, $text:expr, |$ev:ident| $dump:expr) => {
+        match serde_json::from_str::<$ty>($text) {
+            Ok($ev) => {
+                let mut d: Value = $dump;
+                d["variant"] = json!(variant_path(&$ev));
+                json!({"ok": d})
+            }
+            Err(e) => json!({"err": e.to_string()}),
+        }
+    };
+}
+
+fn event_de(cmd: &Value) -> OpResult {
+    let text = s(cmd, "text")?;
+    Ok(match s(cmd, "enum")? {
+        "AnyTimelineEvent" => de_case!(AnyTimelineEvent, text, |ev| json!({
+            "event_type": ev.event_type().to_string(), "sender": ev.sender().as_str(),
+            "event_id": ev.event_id().as_str(), "origin_server_ts": u64::from(ev.origin_server_ts().get()),
+            "room_id": ev.room_id().as_str(),
+            "state_key": match &ev { AnyTimelineEvent::State(s) => Some(s.state_key().to_owned()), _ => None },
+        })),
+        "AnySyncTimelineEvent" => de_case!(AnySyncTimelineEvent, text, |ev| json!({
+            "event_type": ev.event_type().to_string(), "sender": ev.sender().as_str(),
+            "event_id": ev.event_id().as_str(), "origin_server_ts": u64::from(ev.origin_server_ts().get()),
+            "state_key": match &ev { AnySyncTimelineEvent::State(s) => Some(s.state_key().to_owned()), _ => None },
+        })),
+        "AnyStateEvent" => de_case!(AnyStateEvent, text, |ev| json!({
+            "event_type": ev.event_type().to_string(), "sender": ev.sender().as_str(),
+            "event_id": ev.event_id().as_str(), "origin_server_ts": u64::from(ev.origin_server_ts().get()),
+            "room_id": ev.room_id().as_str(), "state_key": ev.state_key(),
+        })),
+        "AnySyncStateEvent" => de_case!(AnySyncStateEvent, text, |ev| json!({
+            "event_type": ev.event_type().to_string(), "sender": ev.sender().as_str(),
+            "event_id": ev.event_id().as_str(), "origin_server_ts": u64::from(ev.origin_server_ts().get()),
+            "state_key": ev.state_key(),
+        })),
+        "AnyStrippedStateEvent" => de_case!(AnyStrippedStateEvent, text, |ev| json!({
+            "event_type": ev.event_type().to_string(), "sender": ev.sender().as_str(),
+            "state_key": ev.state_key(),
+        })),
+        "AnyMessageLikeEvent" => de_case!(AnyMessageLikeEvent, text, |ev| json!({
+            "event_type": ev.event_type().to_string(), "sender": ev.sender().as_str(),
+            "event_id": ev.event_id().as_str(), "origin_server_ts": u64::from(ev.origin_server_ts().get()),
+            "room_id": ev.room_id().as_str(), "is_redacted": ev.is_redacted(),
+        })),
+        "AnySyncMessageLikeEvent" => de_case!(AnySyncMessageLikeEvent, text, |ev| json!({
+            "event_type": ev.event_type().to_string(), "sender": ev.sender().as_str(),
+            "event_id": ev.event_id().as_str(), "origin_server_ts": u64::from(ev.origin_server_ts().get()),
+            "is_redacted": ev.is_redacted(),
+        })),
+        "AnyToDeviceEvent" => de_case!(AnyToDeviceEvent, text, |ev| json!({
+            "event_type": ev.event_type().to_string(), "sender": ev.sender().as_str(),
+        })),
+        "AnyEphemeralRoomEvent" => de_case!(AnyEphemeralRoomEvent, text, |ev| json!({
+            "event_type": ev.event_type().to_string(), "room_id": ev.room_id().as_str(),
+        })),
+        "AnySyncEphemeralRoomEvent" => de_case!(AnySyncEphemeralRoomEvent, text, |ev| json!({
+            "event_type": ev.event_type().to_string(),
+        })),
+        "AnyGlobalAccountDataEvent" => de_case!(AnyGlobalAccountDataEvent, text, |ev| json!({
+            "event_type": ev.event_type().to_string(),
+        })),
+        "AnyRoomAccountDataEvent" => de_case!(AnyRoomAccountDataEvent, text, |ev| json!({
+            "event_type": ev.event_type().to_string(),
+        })),
+        x => return Err(format!("harness: enum {x}")),
+    })
+}
+
+macro_rules! roundtrip {
+    ($ty:ty, $ev_type:expr, $text:expr) => {{
+        let raw: Box<RawValue> =
+            serde_json::from_str($text).map_err(|e| format!("harness: content json: {e}"))?;
+        match <$ty>::from_parts($ev_type, &raw) {
+            Err(e) => json!({"err1": e.to_string()}),
+            Ok(c1) => {
+                let v1 = variant_path(&c1);
+                match serde_json::to_string(&c1) {
+                    Err(e) => json!({"variant": v1, "ser_err": e.to_string()}),
+                    Ok(s1) => {
+                        let raw1: Box<RawValue> = serde_json::from_str(&s1)
+                            .map_err(|e| format!("output is not JSON: {e}"))?;
+                        match <$ty>::from_parts($ev_type, &raw1) {
+                            Err(e) => json!({"variant": v1, "s1": s1, "err2": e.to_string()}),
+                            Ok(c2) => json!({
+                                "variant": v1, "s1": s1,
+                                "s2": serde_json::to_string(&c2).unwrap_or_else(|e| format!("<<{e}>>")),
+                                "variant2": variant_path(&c2),
+                            }),
+                        }
+                    }
+                }
+            }
+        }
+    }};
+}
+
+fn content_roundtrip(cmd: &Value) -> OpResult {
+    let ev_type = s(cmd, "ev_type")?;
+    let text = s(cmd, "content")?;
+    Ok(match s(cmd, "kind")? {
+        "message_like" => roundtrip!(AnyMessageLikeEventContent, ev_type, text),
+        "state" => roundtrip!(AnyStateEventContent, ev_type, text),
+        "to_device" => roundtrip!(AnyToDeviceEventContent, ev_type, text),
+        "ephemeral" => roundtrip!(AnyEphemeralRoomEventContent, ev_type, text),
+        "global_account_data" => roundtrip!(AnyGlobalAccountDataEventContent, ev_type, text),
+        "room_account_data" => roundtrip!(AnyRoomAccountDataEventContent, ev_type, text),
+        x => return Err(format!("harness: kind {x}")),
+    })
+}
+
+fn raw_ops(cmd: &Value) -> OpResult {
+    let text = s(cmd, "text")?;
+    let raw = match Raw::<Value>::from_json_string(text.to_owned()) {
+        Ok(r) => r,
+        Err(e) => return Ok(json!({"from_json_string_err": e.to_string()})),
+    };
+    let mut fields = serde_json::Map::new();
+    for f in cmd.get("fields").and_then(Value::as_array).ok_or("harness: fields")? {
+        let f = f.as_str().ok_or("harness: field")?;
+        let got = raw.get_field::<Box<RawValue>>(f);
+        let typed_str = raw.get_field::<String>(f);
+        let typed_int = raw.get_field::<i64>(f);
+        fields.insert(
+            f.to_owned(),
+            json!({
+                "raw": match got { Ok(Some(v)) => json!({"ok": v.get()}), Ok(None) => json!({"none": true}), Err(e) => json!({"err": e.to_string()}) },
+                "as_string": match typed_str { Ok(Some(v)) => json!({"ok": v}), Ok(None) => json!({"none": true}), Err(e) => json!({"err": e.to_string()}) },
+                "as_i64": match typed_int { Ok(Some(v)) => json!({"ok": v}), Ok(None) => json!({"none": true}), Err(e) => json!({"err": e.to_string()}) },
+            }),
+        );
+    }
+    // cast_ref to a typed Raw and back: the text must stay the same
+    let cast: &Raw<AnySyncTimelineEvent> = raw.cast_ref();
+    let cast_json = cast.json().get().to_owned();
+    let cloned = raw.clone();
+    Ok(json!({
+        "json": raw.json().get(),
+        "cast_json": cast_json,
+        "clone_json": cloned.json().get(),
+        "deserialize": match raw.deserialize() { Ok(v) => json!({"ok": v}), Err(e) => json!({"err": e.to_string()}) },
+        "into_json": cloned.into_json().get(),
+        "fields": fields,
+    }))
+}
+
+pub fn dispatch(op: &str, cmd: &Value) -> Option<OpResult> {
+    Some(match op {
+        "event_de" => event_de(cmd),
+        "content_roundtrip" => content_roundtrip(cmd),
+        "raw_ops" => raw_ops(cmd),
+        _ => return None,
+    })
 }
